@@ -190,6 +190,7 @@ def run_once(ctx, res, seed, n, reqs, tag):
             res.count('reads_before_end=%d' % min(len(req.get('pre') or req.get('got') or []), 3))
             res.count('keeps_reading=%s' % req['drain'])
             res.count('deliveries=%d' % len(req.get('deliveries') or []))
+            if req.get('read_timeouts'): res.count('caller_gave_up_waiting_for_a_reply', req['read_timeouts'])
             own = [n for n in (req.get('stream') or []) if n['op'] == req['op']]
             foreign = len(req.get('stream') or []) - len(own)
             res.count('own_notifications=%d' % min(len(own), 4)); res.count('foreign_notifications=%s' % ('0' if not foreign else '1-3' if foreign < 4 else '4+'))
